@@ -62,9 +62,9 @@ def select(rng, b, n_mcs, n_other, res):
             break
         if not oracle.in_domain_rsmi(rx):
             continue
-        t0 = time.time()
+        t0 = time.process_time()  # CPU time: the selection must not depend on machine load
         out, _, err = pipeline.run(b, [rx])
-        dt = time.time() - t0
+        dt = time.process_time() - t0
         if err or not out or dt > 0.6:
             res.count("candidates_too_slow_or_failed")
             continue
